@@ -16,7 +16,7 @@ Definition kvr_eqb (x y : bytes * bytes * N) : bool :=
 
 Definition resp_eqb (x y : resp) : bool :=
   match x, y with
-  | PErr, PErr | PPanic, PPanic | PHang, PHang => true
+  | PErr, PErr | PPanic, PPanic | PHang, PHang | PRestarted, PRestarted => true
   | PCount h n, PCount h' n' => (h =? h') && (n =? n')
   | PStream kvs e, PStream kvs' e' => list_eqb kvr_eqb kvs kvs' && Bool.eqb e e'
   | PCreate o h, PCreate o' h' => Bool.eqb o o' && (h =? h')
@@ -37,7 +37,9 @@ Definition run_ok (init : N) (qs : list req) (r : c12_run) : bool :=
   let '(final, rs, evs) := run_history (adapter_of (r_eng r)) registry init qs in
   list_eqb resp_eqb rs (r_resps r) && list_eqb event_eqb evs (r_events r) && store_eqb final (r_final r).
 
-Definition c12_check (c : c12_case) : bool := forallb (run_ok (h_init c) (h_reqs c)) (h_runs c).
+(* a comparison needs two runs at least *)
+Definition c12_check (c : c12_case) : bool :=
+  Nat.leb 2 (length (h_runs c)) && forallb (run_ok (h_init c) (h_reqs c)) (h_runs c).
 
 (* the transcripts are compared with the first engine's *)
 Definition same_transcript (a b : c12_run) : bool :=
@@ -53,7 +55,8 @@ Fixpoint first_empty_write (qs : list req) : option nat :=
   | q :: rest => if writes_empty q then Some O else option_map S (first_empty_write rest)
   end.
 
-Definition is_tikv (r : c12_run) : bool := match r_eng r with ETiKV => true | _ => false end.
+Definition tikv_eng (e : eng) : bool := match e with ETiKV | EWrapTiKV => true | _ => false end.
+Definition is_tikv (r : c12_run) : bool := tikv_eng (r_eng r).
 
 Definition agree_within (rs : list c12_run) : bool :=
   match rs with [] => true | r0 :: rest => forallb (same_transcript r0) rest end.
@@ -76,3 +79,12 @@ Definition c12_oracle (c : c12_case) : option N :=
            | None => Some 0
            end
   end.
+
+(* validity, evaluated: no empty value written, or no TiKV configuration among the runs (finding C12-F1) *)
+Definition hist_okb (q : req) : bool := negb (writes_empty q).
+(* at least two runs; and either no empty value is written and the runs mix a TiKV configuration with another engine
+   (what every generated case does), or no TiKV configuration takes part *)
+Definition c12_validb (c : c12_case) : bool :=
+  Nat.leb 2 (length (h_runs c)) &&
+  ((forallb hist_okb (h_reqs c) && existsb is_tikv (h_runs c) && existsb (fun r => negb (is_tikv r)) (h_runs c))
+   || forallb (fun r => negb (is_tikv r)) (h_runs c)).
